@@ -70,11 +70,14 @@ Fixpoint numbering (d : dict) (levels : list Z) : list (list Z) :=
   end.
 
 (* ------------------------------------------------------------------ headings *)
-(* content of a text:h in the property's domain: character data, text:s, text:tab, text:line-break, text:span (nested) *)
-Inductive hitem := HStr (s : str) | HS (n : nat) | HTab | HLb | HSpan (kids : list hitem).
+(* content of a text:h: character data, text:s, text:tab, text:line-break, text:span (nested), a hyperlink text:a (its
+   text counts, its target does not), a footnote / endnote / annotation (HNote: no part of the heading's text) *)
+Inductive hitem := HStr (s : str) | HS (n : nat) | HTab | HLb | HSpan (kids : list hitem) | HLink (kids : list hitem) | HNote.
 
-(* Element.inner_text = text + "".join(str(child) + tail);  str(Spacer) = " " * c, str(Tab) = "\t",
-   str(LineBreak) = "\n", str(Span) = inner_text *)
+(* the text of a heading as the entry shows it.  For text, white-space elements and spans this is Element.inner_text
+   (= text + "".join(str(child) + tail);  str(Spacer) = " " * c, str(Tab) = "\t", str(LineBreak) = "\n",
+   str(Span) = inner_text); the repaired code (fixes/F99, toc.heading_plain_text) also reduces a link to its text
+   and leaves notes out, where inner_text would give "[text](url)" and "citation. note body" *)
 Fixpoint inner_item (it : hitem) : str :=
   match it with
   | HStr s => s
@@ -82,6 +85,8 @@ Fixpoint inner_item (it : hitem) : str :=
   | HTab => [Tb]
   | HLb => [Nl]
   | HSpan kids => flat_map inner_item kids
+  | HLink kids => flat_map inner_item kids
+  | HNote => []
   end.
 Definition inner_text (its : list hitem) : str := flat_map inner_item its.
 
